@@ -1377,15 +1377,17 @@ def _subsumed(x, y, path=''):
             kept = [v for v in x if v is not None]
             return None if canon(kept) == canon(y) else '%s: %r became %r' % (path, x, y)
         rest = list(y)
-        for v in x:
-            if _blank(v):
-                continue
-            for i, w in enumerate(rest):
-                if _subsumed(v, w, path) is None:
-                    rest.pop(i)
-                    break
-            else:
+
+        def _weight(e):
+            return sum(1 for val in e.values() if not _blank(val)) if isinstance(e, dict) else 1
+        # rows may share their key (an endpoint name on two protocols): match the most specific written row
+        # first, each to the read row that fits it most tightly (greedy first-fit would pair a short row with a
+        # longer row of the same key and then miss the longer one)
+        for v in sorted((e for e in x if not _blank(e)), key=_weight, reverse=True):
+            cands = [i for i, w in enumerate(rest) if _subsumed(v, w, path) is None]
+            if not cands:
                 return '%s: element %r lost from %r' % (path, v, y)
+            rest.pop(min(cands, key=lambda i: _weight(rest[i])))
         return None
     if isinstance(y, float) and not isinstance(x, bool) and isinstance(x, (int, float, str)):
         try:
